@@ -118,7 +118,10 @@ def getBareNodes (j : Json) : Except String (List Node) := do
 def ancestorsH : Handler := fun j => do
   let ns ← getBareNodes j
   let qs ← getLabels j "queries"
-  let sets := qs.map fun q => Json.arr ((ancestors ns q).map jLabel).toArray
+  -- one memo table shared by all queries, as in detectOutputConflicts
+  let (sets, _) := qs.foldl (fun (acc : List Json × Cache) q =>
+    let r := getAncestorSet ns acc.2 q
+    (acc.1 ++ [Json.arr (r.1.map jLabel).toArray], r.2)) ([], [])
   pure (Json.mkObj [("sets", Json.arr sets.toArray)])
 
 /-- {"op":"analysis.ordered","nodes":[..],"pairs":[[a,b]..]} → {"r":[bool..]} -/
@@ -128,7 +131,10 @@ def orderedH : Handler := fun j => do
   let ps ← (← getArr j "pairs").toList.mapM fun e => do
     let a ← e.getArr?
     if h : a.size = 2 then pure ((← getLabel a[0]), (← getLabel a[1])) else throw "pair"
-  pure (Json.mkObj [("r", Json.arr (ps.map fun (a, b) => Json.bool (ordered cfg ns a b)).toArray)])
+  let (rs, _) := ps.foldl (fun (acc : List Json × Cache) (ab : Label × Label) =>
+    let r := orderedC cfg ns acc.2 ab.1 ab.2
+    (acc.1 ++ [Json.bool r.1], r.2)) ([], [])
+  pure (Json.mkObj [("r", Json.arr rs.toArray)])
 
 def handlers : List (String × Handler) :=
   [("analysis.analyze", analyzeH), ("analysis.findcycle", findCycleH),
